@@ -968,6 +968,16 @@ impl<'a> PGen<'a> {
                 let idx = self.sreg();
                 emit!(self, ri12(O::GTF, d, idx, self.g.below(0x500) as u32));
             }
+            2 if self.g.bool() => {
+                // look at an output of the own transaction while it runs: its amount through GTF,
+                // and the same word through a plain load from the transaction's bytes in memory
+                emit!(self, ri18(O::MOVI, C, self.g.below(4) as u32));
+                emit!(self, ri12(O::GTF, d, C, 0x302));
+                emit!(self, ri12(O::GTF, B, C, 0x301));
+                let d2 = self.nreg();
+                emit!(self, ri12(O::LW, d2, B, 4));
+                emit!(self, r4(O::LOG, d, d2, ZERO, ZERO));
+            }
             1 | 2 => {
                 // selectors that exist for scripts with index 0
                 let sel = *self.g.pick(&[0x001u32, 0x002, 0x003, 0x004, 0x005, 0x006, 0x007, 0x009, 0x00A]);
